@@ -269,3 +269,54 @@ META = {
     'assumptions': ['la-arena, im::Vector, HashMap/HashSet (empty) modelled', 'outside: the typer\'s LocalTypeEnv, cross-package paths, diagnostics wording, depth > bounds'],
     'trusted_base': ['mirsym MIR interpreter', 'library models listed per obligation', 'z3', 'reference resolver (oracle)'],
 }
+
+# ----------------------------------------------------------------------------- O5.2 an identifier pattern that names a variant of an enum of the package is that variant, not a fresh binder
+def ob_variant_pattern(r, tier, seed):
+    import subprocess, tempfile, shutil, os
+    from vlib import build
+    W = e2.fresh_world(CRATES)
+    HP = W.tt.find_adt(['hir', 'Pat'], 'compiler'); PT = [a for a in W.tt.by_name['Pat'] if a.crate == 'ast'][0]
+    AI = [a for a in W.tt.by_name['AstIdent'] if a.crate == 'ast'][0]
+    r.bounds = 'the pattern `N` (a bare identifier, lowered per file as a variable pattern) resolved in package Main whose constructor index - built from all files of the package - has an enum Color { Red, Green }; N in {Red, Green, other}'
+    r.assumptions = ['the constructor index is the one name resolution builds from every file of the package and its dependencies (ConstructorIndex::new_with_deps)',
+                     'oracle: an identifier pattern that names a variant of an enum of the current package denotes that variant - as it does when the enum is declared in the same file - and is a variable binder otherwise']
+    def entry(ex):
+        name = ex.choose([(True, n) for n in ('Red', 'Green', 'other')])
+        ht = ex.call('hir::HirTable::new', [Agg('compiler::hir::PackageId', 0, [1])])
+        inner = PyMap('hash'); inner.keys.append(mkstr('Color')); inner.vals.append(PySet([mkstr('Red'), mkstr('Green')], 'hash'))
+        outer = PyMap('hash'); outer.keys.append(mkstr('Main')); outer.vals.append(inner)
+        store = {'b': PyMap('hash'), 'd': PyMap('hash'), 'deps': PyMap('hash'), 'cp': mkstr('Main'), 'imp': PySet([], 'hash'),
+                 'ci': Agg('compiler::typer::name_resolution::ConstructorIndex', 0, [outer])}
+        ctx = Agg('compiler::typer::name_resolution::ResolutionContext', 0, [Ref(store, k) for k in ('b', 'd', 'deps', 'cp', 'imp', 'ci')])
+        DI = W.tt.find_adt(['diagnostics', 'Diagnostics'], 'diagnostics')
+        nr = Agg('compiler::typer::name_resolution::NameResolution', 0, [Agg(DI.key, 0, [PyVec([])])])
+        env = Agg('compiler::typer::name_resolution::ResolveLocalEnv', 0, [PyVec([])])
+        pat = Agg(PT.key, PT.vindex('PVar'), [Agg(AI.key, 0, [mkstr(name)]), Opaque('astptr', n=1)])
+        h = {0: nr, 1: pat, 2: env, 3: ctx, 4: ht}
+        pid = ex.call('NameResolution::resolve_pat', [Ref(h, i) for i in range(5)])
+        table = dict(zip([f[0] for f in W.tt.find_adt(['hir', 'HirTable'], 'compiler').variants[0].fields], h[4].fields))
+        p = table['pats'].items[-1]
+        return name, HP.variants[p.idx].name
+    res = e2.explore(r, W, entry, [])
+    for p in res:
+        r.cases += 1
+        if p.kind != 'ok': raise Unsupported('resolve_pat panicked: %s' % p.value)
+        name, kind = p.value
+        want = 'PConstr' if name in ('Red', 'Green') else 'PVar'
+        r.nontrivial += 1
+        if kind != want and not r.findings:
+            d = tempfile.mkdtemp(prefix='vf-c05-')
+            try:
+                open(os.path.join(d, 'color.gom'), 'w').write('enum Color { Red, Green, Blue }\n')
+                open(os.path.join(d, 'main.gom'), 'w').write('fn code(c: Color) -> int32 { match c { Red => 1, Green => 2, Blue => 3 } }\nfn main() -> unit { string_println(int32_to_string(code(Blue))) }\n')
+                out = subprocess.run([build.compiler_bin(), 'run', '--dump-go', os.path.join(d, 'main.gom')], capture_output=True, text=True, timeout=60).stdout
+            finally: shutil.rmtree(d, ignore_errors=True)
+            body = out[out.find('func code('):]; body = body[:body.find('\n}\n') + 3]
+            ok_ = 'func code(' in out and 'switch' not in body
+            r.findings.append(Finding('variant-pattern-becomes-binder', 'the pattern `%s` is resolved as %s although the package has an enum variant of that name (declared in another file)' % (name, kind), {'name': name, 'kind': kind}, ok_,
+                                      'enum Color in color.gom, `match c { Red => 1, Green => 2, Blue => 3 }` in main.gom compiles to: ' + body[:200].replace('\n', ' | ')))
+        elif len(r.samples) < 3: r.samples.append({'pattern': name, 'resolved_as': kind})
+
+_c05_obl = obligations
+def obligations():
+    return _c05_obl() + [Ob('O5.2-variant-pattern', 'an identifier pattern naming a variant of a package enum denotes the variant', ob_variant_pattern, ('quick', 'thorough'), 1, {})]
